@@ -4,6 +4,6 @@ include!("../../generated/generated_sbix.rs");
 
 impl Sbix {
     fn compile_header_flags(&self) -> u16 {
-        self.flags.bits() & 1
+        (self.flags | HeaderFlags::ALWAYS_SET).bits()
     }
 }
